@@ -69,8 +69,10 @@ StageSet == {Lit(<<120>>), Lit(<<32>>), Grp(0), Key(Kk),
              Call("time", <<L(KwLive)>>), Call("time", <<L(KwNow)>>),
              Call("u3", <<L(Ba)>>)}
 
+Other2 == IF Thorough THEN AtomsOut \cup {T1(Key(Kk))} ELSE {L(B7), T1(Grp(1))}
+Outer2 == IF Thorough THEN H2 \cup U2 ELSE {"sumi", "if", "eq", "coalesce", "and", "bucket", "u1", "u2"}
 Groups == {<<"d1", f>> : f \in H1 \cup H2 \cup H3 \cup U1 \cup U2 \cup U3} \cup {<<"vol", "">>, <<"seq", "">>}
-          \cup {<<"d2a", f>> : f \in H1 \cup U1} \cup {<<"d2b", f>> : f \in H2 \cup U2} \cup {<<"d2c", f>> : f \in H2 \cup U2}
+          \cup {<<"d2a", f>> : f \in H1 \cup U1} \cup {<<"d2b", f>> : f \in Outer2} \cup {<<"d2c", f>> : f \in Outer2}
 
 Trees(g) ==
   LET f == g[2] IN
@@ -81,8 +83,8 @@ Trees(g) ==
     [] g[1] = "vol" -> Vol \cup {<<Lit(<<120>>)>> \o v \o <<Lit(<<121>>)>> : v \in Vol}
     [] g[1] = "seq" -> {<<a, b>> : a, b \in StageSet} \cup {<<a, b, d>> : a, b, d \in StageSet}
     [] g[1] = "d2a" -> C1({f}, Inner)
-    [] g[1] = "d2b" -> C2({f}, Inner, IF Thorough THEN AtomsOut \cup {T1(Key(Kk))} ELSE AtomsOut)
-    [] g[1] = "d2c" -> C2({f}, IF Thorough THEN AtomsOut \cup {T1(Key(Kk))} ELSE AtomsOut, Inner)
+    [] g[1] = "d2b" -> C2({f}, Inner, Other2)
+    [] g[1] = "d2c" -> C2({f}, Other2, Inner)
 
 \* contexts: every assignment of the two groups and the key over Vals (depth 1, sequences);
 \* depth 2: both groups over Vals, the key over two values
@@ -93,29 +95,42 @@ CtxOf(g) == IF g[1] \in {"d2a", "d2b", "d2c"} THEN CtxD2 ELSE CtxAll
 Clocks == {[c |-> 100, e |-> 100], [c |-> 100, e |-> 103]}
 
 \* ---------------------------------------------------------------- the laws
-\* L1  optimisation never changes the value (and volatile values follow the clock)
-LawOpt(t, ctx, clk) == Run(t, TRUE, ctx, clk, Defs) = Run(t, FALSE, ctx, clk, Defs)
-\* L2  both refine the documented (abstract) value; a funcs-file call is substitution
-LawAbs(t, ctx, clk) == AbsOK(ValT(t, ctx, clk, Defs), Run(t, TRUE, ctx, clk, Defs))
-\* L3  probe soundness: a stage the probe found constant has that value in every context
-LawProbe(t, ctx, clk) ==
-  LET ct == CompT(t, FALSE, clk.c, CompDefs(Defs, clk.c, <<>>))  p == ProbeT(ct, clk.c) IN
-  p.n = 0 => ExecT(ct, ctx, clk.e).v = p.v
-\* L4  explicit inlining: a call of a funcs-file function runs like the substituted body
-LawSubst(t, ctx, clk) ==
-  (Len(t) = 1 /\ t[1].t = "call" /\ DefIdx(t[1].f, Defs) > 0) =>
-     LET d == DefIdx(t[1].f, Defs) IN
-     Run(t, TRUE, ctx, clk, Defs) = Run(SubstT(Defs[d].body, t[1].args), TRUE, ctx, clk, Defs)
+K0 == 100                                      \* compile clock
+RECURSIVE UsesClockT(_)
+UsesClockN(nd) == nd.t = "call" /\ (nd.f \in {"time", "badlive", "u3", "u5"} \/ \E i \in 1..Len(nd.args) : UsesClockT(nd.args[i]))
+UsesClockT(t) == \E i \in 1..Len(t) : UsesClockN(t[i])
+Evals(t) == IF UsesClockT(t) THEN {100, 103} ELSE {103}      \* evaluation clocks
+CDefs == CompDefs(Defs, K0, <<>>)              \* the loaded (compiled) definitions
+IsUdfCallIn(t, defs) == Len(t) = 1 /\ t[1].t = "call" /\ DefIdx(t[1].f, defs) > 0
+IsUdfCall(t) == IsUdfCallIn(t, Defs)
 
-LawOK ==
-  c.hdr \/ \A ctx \in CtxOf(c.g), clk \in Clocks :
-             /\ LawOpt(c.t, ctx, clk) /\ LawAbs(c.t, ctx, clk) /\ LawProbe(c.t, ctx, clk) /\ LawSubst(c.t, ctx, clk)
+\* L1  optimisation never changes the value (and volatile values follow the clock)
+\* L2  both refine the documented (abstract) value; a funcs-file call is substitution
+\* L3  probe soundness: a stage the probe found constant has that value in every context
+\* L4  explicit inlining: a call of a funcs-file function runs like the substituted body
+LawsOn(t, ctxs) ==
+  LET ctO == CompT(t, TRUE, K0, CDefs)
+      ctN == CompT(t, FALSE, K0, CDefs)
+      p   == ProbeT(ctN, K0)
+      sub == IF IsUdfCall(t) THEN CompT(SubstT(Defs[DefIdx(t[1].f, Defs)].body, t[1].args), TRUE, K0, CDefs) ELSE <<>>
+  IN \A ctx \in ctxs, e \in Evals(t) :
+       LET vO == ExecT(ctO, ctx, e).v
+           vN == ExecT(ctN, ctx, e).v
+       IN /\ vO = vN                                                        \* L1
+          /\ AbsOK(ValT(t, ctx, [c |-> K0, e |-> e], Defs), vO)             \* L2
+          /\ (p.n = 0 => vN = p.v)                                          \* L3
+          /\ (IsUdfCall(t) => ExecT(sub, ctx, e).v = vO)                    \* L4
+
+LawOK == c.hdr \/ LawsOn(c.t, CtxOf(c.g))
 
 \* L5  a volatile stage is never folded: the optimised form of a tree that reaches the clock
 \*     still changes with the clock (checked on the volatile group)
 LawVolatile ==
   (~c.hdr /\ c.g[1] = "vol" /\ c.t \notin {NowT, <<Lit(<<120>>)>> \o NowT \o <<Lit(<<121>>)>>}) =>
-     Run(c.t, TRUE, EmptyBase, [c |-> 100, e |-> 100], Defs) # Run(c.t, TRUE, EmptyBase, [c |-> 100, e |-> 103], Defs)
+     LET ct == CompT(c.t, TRUE, K0, CDefs) IN ExecT(ct, EmptyBase, 100).v # ExecT(ct, EmptyBase, 103).v
+
+\* how many (tree, context, clock) cases demand something of the value (for the evidence)
+Demanding == c.hdr \/ \E ctx \in CtxOf(c.g) : Demands(ValT(c.t, ctx, [c |-> K0, e |-> 103], Defs))
 
 Init == c \in {[hdr |-> TRUE, g |-> g, t |-> <<>>] : g \in Groups}
 Next == c.hdr /\ \E t \in Trees(c.g) : c' = [hdr |-> FALSE, g |-> c.g, t |-> t]
